@@ -439,6 +439,7 @@ class OptimalityLemmas(Contract):
             Path(__file__).resolve().parent.parent / "lemmas" / "LeastSquares.lean",
             {
                 "PyVC.vp_minimises": "lemma_orthogonal_residual_in_q_coordinates_minimises_for_all_m_n",
+                "PyVC.vp_end_to_end": "lemma_all_sizes_obligations_O0_O3_and_lapack_contracts_give_residual_identity_orthogonality_and_optimality",
                 "PyVC.nnls_kkt_optimal": "lemma_kkt_point_minimises_over_nonnegative_clp_for_all_m_n",
             },
         )
